@@ -837,7 +837,12 @@ Section Eval.
     | EUnion a b =>
         bind (eval cx a) (fun va => bind (eval cx b) (fun vb =>
           match va, vb with
-          | VSet l1, VSet l2 => Ok (VSet (merge_items l1 l2))
+          | VSet l1, VSet l2 =>
+              (* as coded: an operand that holds a node twice (see f_alldup) cannot be merged into a set that has a
+                 hash table (4 items): assert in set_insert_node_hash() *)
+              if f_alldup fl && f_assert fl && (4 <=? length (merge_items l1 l2))%nat &&
+                 negb ((length (dedupe l1 []) =? length l1)%nat && (length (dedupe l2 []) =? length l2)%nat)
+              then Err E_ASSERT else Ok (VSet (merge_items l1 l2))
           | _, _ => Err E_TYPE
           end))
     | ELit s => Ok (VStr s)
